@@ -60,6 +60,10 @@ type HistEvent struct {
 	Ok     bool   // add: returned nil
 	Err    string
 	Output string // read: journal as "1,2,3"
+	// Indeterminate: the call was hit by an injected I/O error and failed; like a
+	// timed-out request it may or may not have taken effect (e.g. the error came from
+	// the reload after the commit rename)
+	Indeterminate bool
 }
 
 type lockInfo struct {
@@ -70,6 +74,8 @@ type lockInfo struct {
 
 // World holds the monitors' state for one scenario.
 type World struct {
+	// calls hit by an injected I/O fault / of those, calls that returned an error
+	FaultedCalls, FaultErrors int
 	Dir   string
 	Cfg   reftable.Config
 	GCfg  gen.Cfg
